@@ -68,10 +68,12 @@ func (s *Stream) expandDataChannel() {
 	// from PerformanceConfig.BufferConfig — the expansion knobs are not dead.
 	buf := s.config.PerformanceConfig.BufferConfig
 	exp := s.config.PerformanceConfig.OverflowConfig.ExpansionConfig
+	verifhook.At("exp.enter", s, 0, 0, 0)
 	s.dataChanMux.RLock()
 	oldCap := cap(s.dataChan)
 	currentLen := len(s.dataChan)
 	s.dataChanMux.RUnlock()
+	verifhook.At("exp.sampled", s, int64(oldCap), int64(currentLen), 0)
 
 	if oldCap <= 0 {
 		return
